@@ -582,6 +582,7 @@ def oracle(sim: Sim, plan: dict) -> list[dict]:
                     v("C11.weakref", "kept_alive", f"instance with bound+used signals was not collectable (round {i})")
                 if not res["delivered_own"] or not res["same"]:
                     v("C11.channel", "fresh_instance", f"a fresh instance did not get its own working channel: {res}")
+                    v("C10.stamp", "fresh_instance", f"an event dispatched on a fresh instance was not delivered to its own subscriber stamped with that instance as source: {res}")
         elif kind == "escaped":
             for p in PROPS:
                 v(f"{p}.unexpected_exception", "escaped", f"exception escaped the workload: {d['exc']}")
